@@ -22,6 +22,7 @@ from __future__ import annotations
 
 import collections
 import signal
+import json
 import time
 import types
 import urllib.parse
@@ -851,7 +852,7 @@ class HttpFuzz:
         self._recent.append(f"{method} {url[:300]} [{who}]")
         if len(self._recent) > 64:
             del self._recent[:32]
-        if ch.evaluations % 200 == 0 and self._phase != "stored_defaults":
+        if ch.evaluations % 200 == 0 and self._phase not in ("stored_defaults", "stored_sources"):
             self.reference_check(light=True)
         ch.count(f"status:{res.status}")
         ch.count(f"role:{who}:{'denied' if res.status == 401 else 'served'}")
@@ -861,6 +862,8 @@ class HttpFuzz:
         why = H.violates(res, list(query) + list(stored or []))
         if why:
             sig = (endpoint, H.signature(res))
+            if endpoint == "stored-source":       # ... per stored value: the value is the input here
+                sig += (json.dumps(getattr(self, "_stored_raw", None), sort_keys=True, default=str),)
             if sig not in self.seen_sig:          # shrink and report every distinct failure once
                 self.seen_sig.add(sig)
                 q = query
@@ -870,6 +873,8 @@ class HttpFuzz:
                 f["endpoint"] = endpoint
                 if body:
                     f["body"] = body[0]
+                if endpoint == "stored-source":
+                    f["stored_raw"] = getattr(self, "_stored_raw", None)
                 if endpoint == "stored-defaults":
                     f["stored_form"] = getattr(self, "_last_form", {}) if method == "POST" else \
                         getattr(self, "_effective_form", {})
@@ -1183,7 +1188,8 @@ class HttpFuzz:
                         continue
                     self.one("GET", f"{base}/{num}.{e}", q, "anon", None, endpoint="boundary-live")
                     t = (num - rep["sn"]) * rep["sd"]
-                    for tt in (t - 1, t, t + 1):
+                    # one tick either side at the two ends of the window (and everywhere in the thorough tier)
+                    for tt in ((t - 1, t, t + 1) if (self.ctx.thorough or num in (edge, edge - 1, far, far - 1)) else (t,)):
                         if tt >= 0:
                             self.one("GET", f"{base}/time/{tt}.{e}", q, "anon", None, endpoint="boundary-live")
         for mps, ppks in sorted(self.P["ppks"].items()):
@@ -1269,6 +1275,113 @@ class HttpFuzz:
                     m.db.session.commit()
             self.clients = saved
 
+    def _set_stored(self, directory, defaults):
+        with self.app.ctx() as m:
+            st = m.Stream.get(directory=directory)
+            st.defaults = defaults
+            m.db.session.commit()
+
+    def stored_sources(self):
+        """values that arrive through a STORED source (where a value comes from): Stream.defaults written the way
+        the JSON add-stream API / the populate script / any writer of the column leaves them (no validation) -
+        a fixed grid of values check_option_values or from_string refuse in a URL, out-of-range numbers and JSON
+        types the option does not have - then every route family of that stream with an EMPTY query and with an
+        unrelated parameter; plus the real API end to end (PUT /streams/add with a `defaults` member, upload,
+        index, the stream's pages / manifests / segments).  Oracle: never a 5xx."""
+        import c16_mp4
+        import gen_options
+        H = self.H
+        rows = gen_options.dump()["rows"]
+        with self.app.ctx() as m:
+            spk = m.Stream.get(directory="bbb").pk
+        fams = ["/dash/live/bbb/hand_made.mpd", "/dash/vod/bbb/hand_made.mpd", "/dash/live/bbb/manifest_n.mpd",
+                "/dash/vod/bbb/manifest_e.mpd", "/dash/live/bbb/bbb_v7/init.m4v", "/dash/vod/bbb/bbb_v7/1.m4v",
+                "/dash/vod/bbb/bbb_a1_enc/init.m4a", "/dash/vod/bbb/bbb_v7_enc/2.m4v", "/dash/vod/bbb/bbb_t1/time/0.m4s",
+                "/dash/bbb/hand_made.mpd", "/play/live/bbb/hand_made/index.html", "/patch/bbb/hand_made/1709634000",
+                f"/stream/{spk}", f"/stream/{spk}/defaults", "/time/xsd"]
+        unrelated = [[], [["abr", "1"]], [], [["x", "1"]]]
+        grid = H.stored_refused_grid()
+        conf = H.stored_confused_grid(rows, 3 if self.ctx.thorough else 1)
+        k = 0
+        try:
+            for label, d in grid + conf:
+                full = label.startswith("refused") or self.ctx.thorough
+                try:
+                    self._set_stored("bbb", d)
+                except Exception as e:      # the column itself refuses the value
+                    self.ch.count(f"stored value not storable: {type(e).__name__}")
+                    continue
+                self._stored_raw = d
+                # refused values: the manifest / init / media families with an empty query + 4 more in rotation;
+                # type-confused values: 5 families in rotation
+                paths = ([fams[0], fams[4], fams[5]] + [fams[(k + j) % len(fams)] for j in range(4)]) if full \
+                    else [fams[(k + 3 * j) % len(fams)] for j in range(5)]
+                for j, path in enumerate(dict.fromkeys(paths)):
+                    q = [] if (full and j < 3) else unrelated[(k + j) % len(unrelated)]
+                    who = "media" if path.startswith("/stream/") else "anon"
+                    self.one("GET", path, q, who, None, endpoint="stored-source", stored=self._stored_pairs(d))
+                k += 1
+        finally:
+            self._stored_raw = None
+            self._set_stored("bbb", None)
+        # ---- the real API: PUT /streams/add with a defaults member, then upload + index + pages + media
+        up = c16_mp4.Uploader(self.app)
+        seed = c16_mp4.seeds()["syn_video"]
+        api = [grid[0][1], grid[3][1], grid[9][1], grid[19][1], {"eventTypes": ["ping"], "ping": {"count": 10001}},
+               {"utcMethod": 5}, {"timeShiftBufferDepth": "abc"}]
+        for d in (api if self.ctx.thorough else api[:5]):
+            r = up.c.put("/streams/add", json={"title": "C16 uploads", "directory": "c16up", "prefix": "c16up",
+                                               "marlin_la_url": "", "playready_la_url": "", "defaults": d,
+                                               "csrf_token": up.token("streams"), "ajax": 1},
+                         query_string={"ajax": "1"})
+            self.ch.count(f"api:add-stream:{r.status_code}")
+            with self.app.ctx() as m:
+                st = m.Stream.get(directory="c16up")
+                if st is None:
+                    self.ch.errors.append("PUT /streams/add removed the upload stream")
+                    return
+                up.spk = st.pk
+                kept = st.defaults
+            if r.status_code >= 500:
+                self.ch.oracle_failures.append({"kind": "http", "channel": "fuzz_http", "method": "PUT",
+                                                "path": "/streams/add", "query": [], "who": "media", "headers": None,
+                                                "status": r.status_code, "why": f"status {r.status_code}",
+                                                "url": "/streams/add", "stored_api": d, "now": H.NOW})
+            if not kept:
+                self.ch.count("api:defaults refused or dropped")
+                continue
+            for st_ in up.upload_index(seed):
+                self.ch.evaluations += 1
+                self.ch.count(f"api:{st_['step']}:{st_['status']}")
+                why = c16_mp4.endpoint_violation(st_)
+                key = ("stored-api", st_["step"], str(st_["exc"][:2] if st_["exc"] else why))
+                if why and key not in self.seen_sig:
+                    self.seen_sig.add(key)
+                    self.ch.oracle_failures.append({
+                        "kind": "stored_api", "channel": "fuzz_http", "defaults": d, "step": st_["step"],
+                        "status": st_["status"], "exception": list(st_["exc"]) if st_["exc"] else None,
+                        "why": f"stream created through PUT /streams/add with defaults {d}: {why}"})
+        with self.app.ctx() as m:
+            st = m.Stream.get(directory="c16up")
+            if st is not None:
+                st.defaults = None
+                m.db.session.commit()
+
+    @staticmethod
+    def _stored_pairs(d: dict) -> list:
+        """the injected codes a stored default legitimately asks for, in the form `violates` reads"""
+        out = []
+        for full, cgi in (("videoErrors", "verr"), ("audioErrors", "aerr"), ("textErrors", "terr"),
+                          ("manifestErrors", "merr")):
+            v = d.get(full)
+            if isinstance(v, list):
+                for item in v:
+                    if isinstance(item, list) and len(item) == 2 and isinstance(item[0], int):
+                        out.append([cgi, f"{item[0]}={item[1]}"])
+            elif isinstance(v, str):
+                out.append([cgi, v])
+        return out
+
     def mutating(self, n):
         """POST / PUT / DELETE with junk bodies and no valid CSRF token"""
         rng = self.rng
@@ -1320,6 +1433,7 @@ def ch_fuzz_http(ctx, stop_after=None) -> Channel:
                   ("long_strings", fz.long_strings), ("sweep", fz.sweep), ("every_option", fz.every_option),
                   ("random_gets", lambda: fz.random_gets(ctx.scale(450, 30000))),
                   ("stored_defaults", lambda: fz.stored_defaults(ctx.scale(12, 300))),
+                  ("stored_sources", fz.stored_sources),
                   ("mutating", lambda: fz.mutating(ctx.scale(250, 4000)))]
         for name, run in phases:
             fz._phase = name
@@ -1494,6 +1608,21 @@ def _replay_http(f) -> dict:
         if who != "anon":
             app.login(c, {"media": appboot.MEDIA, "admin": appboot.ADMIN, "user": appboot.USER}[who])
         url = c16_http.build_url(f["path"], f.get("query") or [])
+        if f.get("stored_raw") is not None:
+            # the failure depends on a value in the Stream.defaults column of bbb (written without validation,
+            # as the JSON add-stream API / populate script leave it)
+            def put(v):
+                with app.ctx() as m:
+                    m.Stream.get(directory="bbb").defaults = v
+                    m.db.session.commit()
+            put(f["stored_raw"])
+            try:
+                res = c16_http.run(c, f["method"], url, f.get("headers"))
+                why = c16_http.violates(res, (f.get("query") or []) + HttpFuzz._stored_pairs(f["stored_raw"]))
+                return {"fails": why is not None, "status": res.status, "why": why, "exception": res.exc, "url": url,
+                        "stored_defaults": f["stored_raw"]}
+            finally:
+                put(None)
         if "stored_form" in f:
             # the failure depends on stream defaults saved through the defaults form
             import c16_mp4
@@ -1596,12 +1725,33 @@ def _replay_history(f) -> dict:
             "answer_now": hits[0]["answer_now"] if hits else None, "why": hits[0]["why"] if hits else None}
 
 
+def _replay_stored_api(f) -> dict:
+    """PUT /streams/add with the defaults member, upload + index a file, the stream's pages and segments"""
+    import appboot
+    import c16_http
+    import c16_mp4
+    app = c16_http.world()
+    with appboot.Clock(c16_http.NOW):
+        up = c16_mp4.Uploader(app)
+        r = up.c.put("/streams/add", json={"title": "C16 uploads", "directory": "c16up", "prefix": "c16up",
+                                           "marlin_la_url": "", "playready_la_url": "", "defaults": f["defaults"],
+                                           "csrf_token": up.token("streams"), "ajax": 1}, query_string={"ajax": "1"})
+        with app.ctx() as m:
+            up.spk = m.Stream.get(directory="c16up").pk
+        steps = up.upload_index(c16_mp4.seeds()["syn_video"])
+    bad = [(s["step"], s["status"], s["exc"]) for s in steps if c16_mp4.endpoint_violation(s)]
+    return {"fails": bool(bad) or r.status_code >= 500, "add_stream_status": r.status_code, "failing_steps": bad[:5],
+            "steps": [(s["step"], s["status"]) for s in steps]}
+
+
 def _replay_failure(f) -> dict:
     k = f.get("kind")
     if k == "http_history":
         return _replay_history(f)
     if k == "follow":
         return _replay_follow(f)
+    if k == "stored_api":
+        return _replay_stored_api(f)
     if k == "clients":
         return _replay_clients(f)
     if k == "http":
@@ -1669,6 +1819,9 @@ def replay_finding(ctx, finding):
     import appboot
     import c16_http
     w = finding["witness"]
+    if finding.get("class") == "stored-unusable":
+        r = _replay_http({"method": "GET", "path": w["path"], "query": [], "stored_raw": w["stored"]})
+        return bool(r["fails"])
     app = c16_http.world()
     with appboot.Clock(w.get("now", c16_http.NOW)):
         c = app.client()
@@ -1687,5 +1840,18 @@ def replay_finding(ctx, finding):
 
 
 def matches_finding(finding, failure):
-    # the generators never produce the two ledger situations as oracle failures
+    # (the generators never produce the two injection ledger situations as oracle failures)
+    if finding.get("class") == "stored-unusable":
+        # class of the INPUT, not of the outcome: the failing request belongs to the stored-sources grid and the
+        # stored value is one the option cannot hold (wrong JSON type / text its parser refuses)
+        import c16_http
+        import gen_options
+        d = None
+        if failure.get("kind") == "http" and failure.get("endpoint") == "stored-source":
+            d = failure.get("stored_raw")
+        elif failure.get("kind") == "stored_api":
+            d = failure.get("defaults")
+        if d is None:
+            return False
+        return c16_http.stored_unusable(d, gen_options.dump()["rows"])
     return False
